@@ -171,7 +171,10 @@ func main() {
 			}
 			seen[key] = true
 			lo := rt.Lookup(f, method, host, path)
-			rr, rtsr := f.Reverse(method, host, path)
+			rr, rtsr := func() (r *fox.Route, t bool) {
+				defer func() { _ = recover() }()
+				return f.Reverse(method, host, path)
+			}()
 			rev := "None"
 			if rr != nil {
 				rev = "(Some " + hx.Pair(hx.Bytes(rr.Pattern()), hx.Bool(rtsr)) + ")"
